@@ -250,7 +250,7 @@ def step(root, hist, t, before=None):
         produced = None
     after = [fp(x) for x in pool]
     for i, (b, a) in enumerate(zip(before, after)):
-        if b != a:
+        if bv.fingerprint_changed(b, a):
             if t[0] == "simplify" and t[1] == i and SIMPS[t[2]].get("widening") and a[0] == b[0]:
                 # widening deliberately over-approximates the simplified object itself
                 continue
@@ -291,6 +291,20 @@ def explore_shard(args):
             T = transitions(len(pool), sizes, True)
             if d == 0:
                 T = T[shard::nshards]
+            elif d >= 2:
+                # third level (thorough): only operations in which the newest member takes part, reduced operator menu
+                last = len(pool) - 1
+                keep = []
+                for t in T:
+                    if t[0] == "bin":
+                        if t[2] == last and t[3] in (last, 0) and t[1] in ("+", "^", "<<", "<"):
+                            keep.append(t)
+                    elif t[0] in ("vec", "tst", "composer", "merge"):
+                        if t[1] == last and t[2] == 0:
+                            keep.append(t)
+                    elif t[1] == last or (t[0] == "un" and t[2] == last):
+                        keep.append(t)
+                T = keep
             for t in T:
                 stats["transitions"] += 1
                 fl, produced, after = step(root, hist, t, before)
@@ -328,15 +342,15 @@ def m_envs():
             ((0, 0, 0), (0x11223344, 0xA1B2C3D4, 5), (0xFFFFFFFF, 1, 0x80), (0x80000000, 0x7FFFFFFF, 0xFF))]
 
 
-def m_ops():
+def m_ops(reduced=False):
     ops = []
     for rg in MREGS:
-        for (lo, hi) in MRANGES:
-            for val in ("cst", "other", "inc"):
+        for (lo, hi) in (MRANGES if not reduced else [r for r in MRANGES if r != (8, 16)]):
+            for val in (("cst", "other", "inc") if not reduced else ("cst", "other")):
                 ops.append(("w", rg, lo, hi, val))
     for size in (8, 32):
         for off in (0, 1):
-            for val in ("cst", "other"):
+            for val in (("cst", "other") if not reduced else ("cst",)):
                 ops.append(("wm", size, off, val))
     for rg in MREGS:
         ops.append(("r", rg))
@@ -466,7 +480,7 @@ def m_run(hist):
                 f1 = bv.fingerprint(obj, envs) if kind == "exp" else m_snapshot_mapper(obj, E, R, envs)
             except Exception as ex:
                 f1 = ("broken", type(ex).__name__)
-            if f1 != f0:
+            if (bv.fingerprint_changed(f0, f1) if kind == "exp" else f1 != f0):
                 out.append(("C13", ("live-mapper", kind, op[0], "after:" + desc.split(" ")[0].split("(")[0]),
                             "history %r: the %s changed when step %d %r was applied to the mapper it came from: %r -> %r (now %s)" % (
                                 hist, desc, k, op, f0, f1, str(obj).replace("\n", "; ")[:160])))
@@ -500,12 +514,13 @@ def m_run(hist):
 def mapper_shard(args):
     depth, shard, nshards = args[:3]
     want = args[3] if len(args) > 3 else "C13"
-    ops = m_ops()
+    ops = m_ops(reduced=depth >= 4)      # depth 4 (thorough) runs over the reduced operation menu; depth <= 3 over the full one
+    full_ops = m_ops()
     fails = []
     stats = {"histories": 0, "invariants": 0}
     import itertools
     for d in range(1, depth + 1):
-        for idx, hist in enumerate(itertools.product(ops, repeat=d)):
+        for idx, hist in enumerate(itertools.product(ops if d >= 4 else full_ops, repeat=d)):
             if idx % nshards != shard:
                 continue
             # only histories that obtain something before the last step (C13) or end with a register write (C12)
@@ -564,7 +579,7 @@ def run(tier, seed):
                 "history up to the depth over whole/partial register writes, memory writes at two offsets, reads, m.use() and "
                 "memory copies -- every expression read and every copy taken earlier keeps its denotation after each later step",
         "live_mapper": dict(mtot, depth=mdepth, operations=len(m_ops())),
-        "per_root": per, "depth": depth, "closed_below_bound": all(p["open_states_at_bound"] == 0 for p in per),
+        "per_root": per, "depth": depth, "third_level": "unary/slice/simplify/eval/store operations on the newest member and 4 binary operators pairing it with itself and member 0" if depth >= 3 else None, "closed_below_bound": all(p["open_states_at_bound"] == 0 for p in per),
         "samples": [{"root": "plain", "pool": ["a", "0x91", "(a+b)", "{a[0:4],0x9}"], "transition": ["bin", ".>>", 1, 0]},
                     {"root": "signed", "transition": ["eval", 2, "concrete"]}],
     })
